@@ -668,6 +668,30 @@ func (engine) Generate(rng *rand.Rand, tier string) []core.Case {
 			}
 		}
 	}
+	// (1b) three callers, the "late callback" template for every issuing site X in the first position:
+	// X commits and its callback stays pending while two other calls on the same branch run completely, then X's
+	// callback runs (without the mutex at X this moves the in-memory index backwards).  Plus neighbours of it.
+	for _, x := range []string{"new", "cur", "change", "tx", "psbt"} {
+		partner := "new"
+		if branchOf[x] == 1 {
+			partner = "change"
+		}
+		c := core.Case{Ops: []string{"reset", "setup"}, Tags: []string{"late-callback:" + siteOf[x]}}
+		tmpl := []int{0, 0, 0, 1, 1, 1, 1, 2, 2, 2, 2, 0}
+		for j := 0; j < 12; j++ {
+			s := append([]int{}, tmpl...)
+			if j > 0 { // neighbour: swap two adjacent steps
+				k := rng.Intn(len(s) - 1)
+				s[k], s[k+1] = s[k+1], s[k]
+			}
+			s = append(s, drain(3, 13)...)
+			if x == "cur" {
+				c.Ops = append(c.Ops, "markused")
+			}
+			c.Ops = append(c.Ops, fmt.Sprintf("sched c=%s;%s;%s s=%s", x, partner, partner, schedStr(s)))
+		}
+		cases = append(cases, c)
+	}
 	// (2) three callers, random schedules
 	n3 := 6
 	per := 40
